@@ -236,16 +236,50 @@ func runCase(t *rapid.T, engine string) {
 			if bi == nil {
 				fail("HARNESS: backup goroutine never accepted the request")
 			}
+			// the node's apply loop goes on as soon as the checkpoint reports its state frozen
+			// (kvStoreSM.GetSnapshot -> BackupInfo.WaitReady), not when it is finished: writes that
+			// arrive from then on are after index idx and must not be in it
+			atBackup := dump(sim, pool.Keys)
+			bi.WaitReady()
+			var late []string
+			if rapid.IntRange(0, 2).Draw(t, "late_writes") == 0 {
+				for j := rapid.IntRange(1, 3).Draw(t, "nlate"); j > 0; j-- {
+					k := rapid.SampledFrom(pool.Keys).Draw(t, "latekey")
+					var lc []string
+					switch rapid.IntRange(0, 3).Draw(t, "latecmd") {
+					case 0:
+						lc = []string{"set", k, fmt.Sprintf("late-%d-%d", i, j)}
+					case 1:
+						lc = []string{"hset", k, "late", fmt.Sprintf("%d-%d", i, j)}
+					case 2:
+						lc = []string{"rpush", k, fmt.Sprintf("late-%d-%d", i, j)}
+					default:
+						lc = []string{"incr", k + "-latecnt"}
+					}
+					r := sim.Do(gen.WithNS(ns, lc)...)
+					late = append(late, gen.Quote(lc)+" -> "+r.String())
+				}
+				labels["writes_between_frozen_signal_and_end_of_backup"] = true
+			}
 			if _, err := bi.GetResult(); err != nil {
 				fail("backup at index %d failed: %v", idx, err)
 			}
-			c := &ckpt{index: idx, dump: dump(sim, pool.Keys)}
+			c := &ckpt{index: idx, dump: atBackup}
 			c.files, err = dirHash(ckDir(db, idx))
 			if err != nil {
 				fail("backup at index %d reported success but its directory cannot be read: %v", idx, err)
 			}
 			cks = append(cks, c)
 			trace = append(trace, fmt.Sprintf("BACKUP index %d (%d files)", idx, len(c.files)))
+			for _, l := range late {
+				trace = append(trace, "  after the frozen signal, before the backup finished: "+l)
+			}
+			if len(late) > 0 {
+				for _, ck := range cks {
+					ck.writes += len(late)
+					ck.clobber = true
+				}
+			}
 			canon = append(canon, "backup")
 			if rapid.Bool().Draw(t, "recordsnap") {
 				latestSnap = idx
@@ -314,6 +348,25 @@ func runCase(t *rapid.T, engine string) {
 				sim2.Do("hset", ns+":"+pool.Keys[0], "f", "other")
 			}
 			db2 := sim2.Parts[0].Store().RockDB
+			if rapid.IntRange(0, 2).Draw(t, "own_same_name") == 0 {
+				// the receiving store has a checkpoint of its OWN data under the same term-index name
+				// (checkpoints fetched from another cluster are numbered by that cluster's log)
+				sim2.Do("set", ns+":"+pool.Keys[0], fmt.Sprintf("other-node-data-%d", i))
+				sim2.Do("hset", ns+":"+pool.Keys[0], "f", fmt.Sprintf("other-%d", i))
+				bi := db2.Backup(1, c.index)
+				for try := 0; bi == nil && try < 400; try++ {
+					time.Sleep(5 * time.Millisecond)
+					bi = db2.Backup(1, c.index)
+				}
+				if bi == nil {
+					fail("HARNESS: the other store does not accept a backup")
+				}
+				if _, err := bi.GetResult(); err != nil {
+					fail("backup on the other store failed: %v", err)
+				}
+				trace = append(trace, fmt.Sprintf("OTHER-NODE takes its own checkpoint named index %d", c.index))
+				labels["other_store_has_own_checkpoint_of_same_name"] = true
+			}
 			dst := filepath.Join(db2.GetBackupDirForRemote(), rockredis.GetCheckpointDir(1, c.index))
 			os.RemoveAll(dst)
 			os.MkdirAll(filepath.Dir(dst), 0755)
